@@ -38,6 +38,36 @@ T={
         "is_match and span lists must be equal for twelve rewrite laws, each exercised with a measured minimum share",
         "copying laws only applied to terms without groups/back-references"),
 }
+
+T.update({
+ "C07":("accept/reject oracle from the grammar: rendered ASTs and curated valid patterns per production (must accept), curated provably-invalid mutations each with its grammar argument (must reject with Syntax), exhaustive flag strings <= 3","4 C07",
+        "acceptance of Regex::xpath is compared with the grammar in both directions; every production must be exercised (vacuity guard per production)",
+        "random mutants without a grammar argument are not judged (they go to C05); debatable XSD corners ([a-c-e]) are not generated"),
+ "C09":("differential vs set algebra over independent Unicode data (R4/R3); bulk membership over 4096-code-point chunks, all scalar values for a sample of expressions","4 C09",
+        "membership of scalar values in generated class expressions, in bulk through replace_all and at set boundaries in six syntactic positions",
+        "trusts ICU4X general-category data for the escapes inside classes"),
+ "C10":("exhaustive enumeration: every category / group / multi-character escape x all 1,112,064 scalar values, every block escape x its neighbourhood (quick) or all scalar values (thorough), against R3","4 C10",
+        "bulk membership via replace_all plus anchored is_match at every set boundary; unknown names must be rejected; block.rs must equal the generator's output",
+        "trusted base: ICU4X 1.5 property data accessed through a different API path, Blocks.txt as shipped"),
+ "C11":("differential vs R1/R2 with the case-blind rule + metamorphic case swaps of input and pattern + monotonicity; alphabets validated at start-up","4 C11",
+        "flag i on literals, class chars, ranges and back-references over ASCII, Latin-1, Greek, Cyrillic and Deseret letters with one-to-one case mappings",
+        "characters with more than one case counterpart are outside the alphabets; swap relations not applied when the pattern contains a case-sensitive escape such as \\p{Lu}"),
+ "C13":("differential vs literal substring search / split / replace; random metacharacter-heavy literals","4 C13",
+        "all APIs under flag q (alone and with i, m, s, x) against plain string semantics, including the empty literal",
+        "case-blind comparison limited to ASCII letters in the generated alphabet"),
+ "C14":("metamorphic by construction: whitespace inserted at arbitrary gaps outside classes under x vs the original pattern; inside-class and non-XML-whitespace variants with vs without x","4 C14",
+        "equivalence of acceptance and of all API results between the two spellings",
+        "class extents are computed by an independent scan of the rendered (valid) pattern"),
+ "C15":("differential vs an independent replacement-expansion function over the engine's own analyze match list; exhaustive replacement strings <= 4 (quick) / <= 5 (thorough) over {$,\\,0,1,2,9,a}","4 C15",
+        "replace_all output or InvalidReplacementString for every replacement string in scope on patterns with 0..13 groups",
+        "match spans and group texts come from analyze, so matching defects cannot leak in"),
+ "C17":("differential between the two dialect constructors on one pattern text, tags of XPath-only constructs from the AST; R1 with anchors as literals for xsd","4 C17",
+        "xsd rejects exactly the XPath-only constructs, agrees with xpath on the common subset, and treats ^ and $ as literals",
+        "trusts R1 for the anchors-as-literals clause"),
+ "C18":("model-based call histories (fresh object per call as the model) executed in order with interleaved iterators, shuffled, and from 4 threads; compile-time Send+Sync assertion crate","4 C18",
+        "every call result in every execution must equal the result on a freshly compiled Regex",
+        "threads are a stress, not schedule enumeration"),
+})
 checks=[]
 na=[]
 for p in ids:
